@@ -90,9 +90,10 @@ def gen_direct(rng):
             if ft is models.ForeignKey:
                 kw['null'] = True
         else:
-            if rng.random() < 0.5:
+            r0 = rng.random()
+            if r0 < 0.35:
                 kw['null'] = True
-            else:
+            if r0 >= 0.2:
                 ini = {models.CharField: rng.choice(STRS)[:5],
                        models.TextField: rng.choice(STRS),
                        models.IntegerField: rng.choice([0, -1, 7]),
